@@ -80,6 +80,8 @@ def rewrite(src, relpath, log, skip=()):
                 r'\1let vshim_w_\2: &mut [u8] = &mut *\3; let \2 = &mut vshim_w_\2[\4];', s)
     # R10  slice.into() (only use in the crate: &[u8] -> Vec<u8>) -> shim with spec r@ == self@ (the shim is only implemented for [u8])
     s = sub('R10', r'\b([a-z_]+)\.into\(\)', r'\1.vshim_into_vec()', s)
+    # R12  Vec::with_capacity(n) -> shim whose spec adds the documented lower bound on the capacity
+    s = sub('R12', r'\bVec::with_capacity\(', 'vshim_with_capacity(', s)
     # R4  X.iter().fold(I, |a, x| { BODY })   ->  while loop with the same BODY (lines preserved)
     s = rewrite_fold(s, relpath, log)
     # R5  anonymous parameters
